@@ -357,6 +357,14 @@ func (rule *RuleExpression) getWorkflowCallOutputsType(call *WorkflowCall) *Obje
 		return NewMapObjectType(StringType{})
 	}
 
+	if !isWorkflowCallUsesLocalFormat(call.Uses.Value) {
+		// Outputs of a workflow in other repository are unknown. And the workflow-call rule reports
+		// "uses" which does not follow the format. Trying to read a file for such value here would
+		// report 'could not read reusable workflow file' error only when a job depending on this
+		// job is visited before this job.
+		return NewMapObjectType(StringType{})
+	}
+
 	m, err := rule.localWorkflows.FindMetadata(call.Uses.Value)
 	if err != nil {
 		rule.Error(call.Uses.Pos, err.Error())
